@@ -16,7 +16,7 @@ from pyvc import contract as C
 flt = sys.argv[1]
 out = []
 for c in C.all_contracts() + C.LEMMAS:
-    if flt not in c.qual: continue
+    if flt not in (c.qual + '#' + str(getattr(c, 'variant', ''))): continue
     rep = C.verify_contract(c)
     bad = [(o.name, o.status) for o in rep.obligations if o.status != 'discharged']
     out.append({'qual': c.qual, 'n': len(rep.obligations), 'bad': bad[:3], 'error': rep.error})
